@@ -46,6 +46,7 @@ type c15Params struct {
 	Port2     int             `json:"port2,omitempty"` // a second service instance on another port sharing the director
 	Exchanges [][]c15Exchange `json:"exchanges"`       // per client
 	Fault     string          `json:"fault,omitempty"` // refuse | close-mid-reply
+	SSH       []c15SSHClient  `json:"ssh,omitempty"`
 }
 
 func c15Config(p *c15Params) string {
@@ -53,7 +54,7 @@ func c15Config(p *c15Params) string {
 	if p.HostPort {
 		host = fmt.Sprintf("%s:%d", backendAddr, p.Port)
 	}
-	typ := map[string]string{"http": "http-proxy", "copy-tcp": "copy", "copy-udp": "copy", "dns": "dns-proxy"}[p.Mode]
+	typ := map[string]string{"http": "http-proxy", "copy-tcp": "copy", "copy-udp": "copy", "dns": "dns-proxy", "ssh": "ssh-proxy"}[p.Mode]
 	proto := "tcp"
 	if p.Mode == "copy-udp" || p.Mode == "dns" {
 		proto = "udp"
@@ -68,8 +69,19 @@ func c15Config(p *c15Params) string {
 
 func genC15(seed uint64, idx int, tier string) *Scenario {
 	r := NewRng(seed, "c15")
-	p := c15Params{Mode: []string{"http", "http", "copy-tcp", "copy-udp", "dns"}[idx%5], HostPort: r.Chance(0.5), Port: []int{8080, 80, 5353, 9000}[r.Intn(4)]}
+	p := c15Params{Mode: []string{"http", "http", "copy-tcp", "copy-udp", "dns", "http"}[idx%6], HostPort: r.Chance(0.5), Port: []int{8080, 80, 5353, 9000}[r.Intn(4)]}
 	sc := &Scenario{Engine: "c15"}
+	if idx%6 == 5 {
+		genC15SSH(r, &p, sc)
+		sc.Config = c15Config(&p)
+		pj, _ := json.Marshal(p)
+		var pm map[string]interface{}
+		json.Unmarshal(pj, &pm)
+		sc.Params = pm
+		sc.Schedule = r.Schedule(16)
+		sc.DrainMs = 400000
+		return sc
+	}
 	if r.Chance(0.12) {
 		p.Fault = []string{"refuse", "close-mid-reply"}[r.Intn(2)]
 		sc.Faults = []string{"backend-" + p.Fault}
@@ -221,6 +233,9 @@ func runC15(t *testing.T, sc *Scenario) Result {
 	var p c15Params
 	b, _ := json.Marshal(sc.Params)
 	json.Unmarshal(b, &p)
+	if p.Mode == "ssh" {
+		return runC15SSH(t, sc, &p)
+	}
 	be := &c15Backend{streams: map[string][]byte{}, port: map[string]int{}}
 	// responses by tag (http) in script order over all clients
 	respByTag := map[string]c15Exchange{}
